@@ -115,7 +115,8 @@ func (d *vfFlowSrv) settle() {
 		d.dead = true
 		d.emit(map[string]any{"e": "e_closed"})
 	}
-	d.emit(map[string]any{"e": "q", "unsent": d.st.sc.VfConnUnsent()})
+	avail, savail := d.st.sc.VfRecvWindows()
+	d.emit(map[string]any{"e": "q", "unsent": d.st.sc.VfConnUnsent(), "avail": avail, "savail": savail})
 }
 
 // async runs one handler operation in the handler's goroutine without waiting for it.
@@ -245,7 +246,7 @@ func vfFlowServerScenario(tb testing.TB, env *vfEnv, tn int, rnd *rand.Rand) {
 				}
 				return map[string]any{"e": "a_read", "s": sid, "n": k, "b0": int(buf[0]), "b1": int(buf[k-1])}
 			})
-		case x < 51: // handler closes the request body
+		case x < 53: // handler closes the request body
 			s := pick()
 			if s.busy || s.call == nil || s.bodyGone {
 				continue
@@ -256,7 +257,7 @@ func vfFlowServerScenario(tb testing.TB, env *vfEnv, tn int, rnd *rand.Rand) {
 				r.Body.Close()
 				return nil
 			})
-		case x < 57: // handler returns
+		case x < 58: // handler returns
 			s := pick()
 			if s.busy || s.call == nil {
 				continue
@@ -265,6 +266,13 @@ func vfFlowServerScenario(tb testing.TB, env *vfEnv, tn int, rnd *rand.Rand) {
 			s.call.exit()
 		case x < 77: // peer sends DATA
 			s := pick()
+			forcePad := false
+			for _, c := range open { // favour streams whose handler closed the body but is still running
+				if c.bodyGone && !c.peerEnd && rnd.Intn(2) == 0 {
+					s, forcePad = c, rnd.Intn(3) != 0
+					break
+				}
+			}
 			if s.peerEnd && rnd.Intn(6) != 0 {
 				continue
 			}
@@ -273,7 +281,11 @@ func vfFlowServerScenario(tb testing.TB, env *vfEnv, tn int, rnd *rand.Rand) {
 				room = d.sa[s.id]
 			}
 			ln := rnd.Intn(3)*unit + rnd.Intn(4)
-			switch rnd.Intn(8) {
+			bsel := rnd.Intn(8)
+			if room < 200000 && rnd.Intn(3) == 0 {
+				bsel = rnd.Intn(3)
+			}
+			switch bsel {
 			case 0:
 				ln = int(room) // exactly the window
 			case 1:
@@ -290,7 +302,7 @@ func vfFlowServerScenario(tb testing.TB, env *vfEnv, tn int, rnd *rand.Rand) {
 				ln = 1 << 20
 			}
 			pad := 0
-			if rnd.Intn(4) == 0 && ln > 0 {
+			if (rnd.Intn(4) == 0 || forcePad) && ln > 0 {
 				pad = 1 + rnd.Intn(255)
 				if pad > ln {
 					pad = ln
